@@ -34,6 +34,7 @@ c parameters:
 c variables:
       integer, intent(in) :: np, ndgs, nang
       integer :: maxi
+      real(kind=dp) :: notanumber
       real(kind=dp), intent(in) :: lam, mrr, mri, eps
       real(kind=dp), intent(in) :: axi, rat, alpha, beta, thet0, phi0
       real(kind=dp), dimension(nang),intent(in) :: thet, phi
@@ -43,6 +44,17 @@ C Call amp_scat_matrix on the first angle to calc the T-matrix
       call amp_scat_matrix (axi,rat,lam,mrr,mri,eps,np,ndgs,alpha,
      &                      beta,thet0,thet(1),phi0,phi(1),
      &                      s11(1),s12(1),s21(1),s22(1),maxi)
+C The T-matrix code signals failure (size or aspect ratio beyond its
+C limits, no convergence) with maxi < 0: return NaN for every angle.
+      if (maxi < 0) then
+         notanumber = 0.0_dp
+         notanumber = notanumber / notanumber
+         s11 = cmplx(notanumber, notanumber, kind=dp)
+         s12 = s11
+         s21 = s11
+         s22 = s11
+         return
+      end if
 C loop over the rest of the angles. T-matrix is a global (common)
       if (nang > 1) then
          do j=2, nang
